@@ -46,6 +46,8 @@ type avsTask struct {
 	chal       int64
 	optIn      []string
 	phase1     map[string][]byte // operator -> signature
+	payload    map[string][]byte // operator -> the payload its phase-one signature was made over
+	malformed  map[string]string // operator -> in which way that payload is not a task response
 	phase2     map[string]bool
 	challenged map[string]bool
 	judged     bool
@@ -477,10 +479,34 @@ func (a *avsRun) submission(t *avsTask, outsider *avsOp) {
 	e := a.cur("minute")
 	phase := t.phaseAt(e)
 	resp := a.response(t, t.id)
+	_, has1 := t.phase1[op.o.Addr()]
+	malformed := ""
+	if t.payload == nil {
+		t.payload, t.malformed = map[string][]byte{}, map[string]string{}
+	}
+	if p, ok := t.payload[op.o.Addr()]; ok && has1 {
+		resp, malformed = p, t.malformed[op.o.Addr()]
+	} else if !has1 && r.Intn(7) == 0 {
+		// an operator that commits (phase one signs the digest of the payload) to something that is not a task
+		// response; everything else about its two submissions is in order
+		switch r.Intn(4) {
+		case 0:
+			malformed = "two-documents"
+			resp = append(resp, a.response(t, t.id+6)...)
+		case 1:
+			malformed = "trailing-bytes"
+			resp = append(resp, []byte(" xyz")...)
+		case 2:
+			malformed = "truncated"
+			resp = resp[:len(resp)-3]
+		default:
+			malformed = "not-json"
+			resp = []byte{0, 1, 2, 'b', 'i', 'n'}
+		}
+	}
 	digest := crypto.Keccak256Hash(resp)
 	sig := op.sk.Sign(digest[:]).Marshal()
 	stage := avstypes.TwoPhaseCommitOne
-	_, has1 := t.phase1[op.o.Addr()]
 	if has1 && r.Intn(4) > 0 || (!has1 && r.Intn(8) == 0) {
 		stage = avstypes.TwoPhaseCommitTwo
 	}
@@ -520,6 +546,9 @@ func (a *avsRun) submission(t *avsTask, outsider *avsOp) {
 	st := w.CosmosStep("task_result", op.o.Acct, sim.CosmosTxOpts{}, map[string]string{"task": fmt.Sprintf("%s/%d", t.addr, t.id), "stage": stage, "variant": variant, "operator": op.o.Acct.Name},
 		&avstypes.SubmitTaskResultReq{FromAddress: op.o.Acct.Acc.String(), Info: info})
 	s.Eval("task-result")
+	if malformed != "" {
+		variant += "|payload=" + malformed
+	}
 	s.Case(fmt.Sprintf("task_result|stage=%s|%s|window=%s|key=%v|ack=%v", stage, variant, phase, op.hasKey, st.Ack))
 	if !st.Ack {
 		return
@@ -544,6 +573,7 @@ func (a *avsRun) submission(t *avsTask, outsider *avsOp) {
 			bad("phase-one-with-response", "phase one accepted although it carries the response")
 		}
 		t.phase1[op.o.Addr()] = info.BlsSignature
+		t.payload[op.o.Addr()], t.malformed[op.o.Addr()] = resp, malformed
 		_ = sigValid // a phase-one signature cannot be verified yet (the response is unknown); it is checked in phase two
 		return
 	}
@@ -558,6 +588,9 @@ func (a *avsRun) submission(t *avsTask, outsider *avsOp) {
 	}
 	if !idMatches {
 		bad("phase-two-with-another-task-id", "phase two accepted with a response for task id %d", t.id+1)
+	}
+	if malformed != "" && variant != "response-with-another-task-id" {
+		bad("phase-two-with-malformed-response", "phase two accepted although its payload is not a task response (%s): %q", malformed, string(resp))
 	}
 	// the phase-one signature must verify over the response (a phase one signed by another key must not get through)
 	if has1 {
